@@ -93,6 +93,20 @@ func (e *Engine) VerifyFunc(c *FuncContract) *FnCtx {
 		fc.fact(t.S)
 		reqs = append(reqs, t.S)
 	}
+	// global invariants: assumed everywhere except in the function that establishes them
+	for _, gi := range e.specs.GlobalInvs {
+		genv := &Env{fc: fc, pkg: gi.Pkg, vars: map[string]CVal{}, bound: map[string]CVal{}, st: st, old: fr.old}
+		if gi.By == c.Key {
+			continue
+		}
+		t, err := genv.evalBool(gi.Expr)
+		if err != nil {
+			fc.unsupported("globalinv %s: %v", gi.Name, err)
+			continue
+		}
+		fc.fact(t.S)
+		fc.trusted["global invariant "+gi.Name+" (established by "+shortKey(gi.By)+", proved there; assumes package init has run)"] = true
+	}
 	// sync the old state with arrays materialised so far (they are all base versions)
 	for k, v := range st.heap {
 		if _, ok := fr.old.heap[k]; !ok {
